@@ -533,13 +533,6 @@ pub fn process_events(
     input: InputList,
     context: &mut TransformerContext,
 ) -> Result<(OutputList, Option<BoundingBox>)> {
-    if is_real_svg(&input) {
-        if context.get_top_element().is_none() {
-            // if this is the outermost SVG element, we mark the entire input as a 'real' SVG document
-            context.real_svg = true;
-        }
-        return Ok((input.into(), None));
-    }
     let mut output = OutputList::new();
     let mut idx_output = BTreeMap::<OrderIndex, OutputList>::new();
 
@@ -572,7 +565,15 @@ impl Transformer {
     pub fn transform(&mut self, reader: &mut dyn BufRead, writer: &mut dyn Write) -> Result<()> {
         let input = InputList::from_reader(reader)?;
         self.context.set_events(input.events.clone());
-        let output = process_events(input, &mut self.context)?;
+        let output = if is_real_svg(&input) {
+            // Only the document as a whole can be a 'real' SVG document; a nested
+            // namespaced <svg> is passed through by `Container`, without affecting
+            // the processing of its siblings.
+            self.context.real_svg = true;
+            (input.into(), None)
+        } else {
+            process_events(input, &mut self.context)?
+        };
         self.postprocess(output, writer)
     }
 
